@@ -519,23 +519,20 @@ Qed.
 
 (* ------------------------------------------------------------------ close codes: table vs RFC *)
 Lemma gen_bodies_ok t :
-  websocket_isControl t = Ok (is_control t) /\ websocket_isData t = Ok (is_data t) /\
-  websocket_isValidReceivedCloseCode t = Ok (is_valid_received_close_code t).
+  websocket_isControl t = Ok (is_control t) /\ websocket_isData t = Ok (is_data t).
 Proof. repeat split. Qed.
 
 Lemma close_code_table code :
   is_valid_received_close_code (Z.of_N code) = rfc_close_code_ok code.
 Proof.
-  unfold is_valid_received_close_code, websocket_isValidReceivedCloseCode, websocket_validReceivedCloseCodes_map,
-         rfc_close_code_ok.
-  cbn [unres GoSem.map_bool].
+  unfold is_valid_received_close_code, websocket_close_code_valid, websocket_close_code_table, rfc_close_code_ok.
+  cbn [websocket_close_code_lookup].
   repeat match goal with
          | |- context [Z.of_N code =? ?k] =>
              let E := fresh "E" in
              destruct (Z.eqb_spec (Z.of_N code) k) as [E|E];
              [ (let v := eval vm_compute in (Z.to_N k) in assert (code = v) as -> by lia); vm_compute; reflexivity | ]
          end.
-  cbn [orb].
   apply Bool.eq_true_iff_eq.
   rewrite ?orb_true_iff, ?andb_true_iff, ?Z.leb_le, ?Z.geb_le, ?N.leb_le. lia.
 Qed.
